@@ -90,6 +90,10 @@ pub trait Host {
     fn is_consumed(&self, _key: ReqKey) -> bool {
         false
     }
+    /// typed hosts: resolve an OpB request with an arbitrary output value
+    fn resolve_b_raw(&mut self, _key: ReqKey, _out: OutB) -> Option<Result<Outcome, String>> {
+        None
+    }
     /// bridge only: (never, once, many) entries in the registry
     fn registry_kinds(&mut self) -> Option<(usize, usize, usize)> {
         None
@@ -116,7 +120,7 @@ fn desc_render() -> EffectDesc {
 pub struct Shelf {
     pub reqs: BTreeMap<ReqKey, Held>,
     renders: Vec<Request<RenderOperation>>,
-    dup_keys: Vec<ReqKey>,
+    pub dup_keys: Vec<ReqKey>,
 }
 
 impl Shelf {
@@ -412,6 +416,25 @@ where
     fn drop_all_roots(&mut self) {
         self.core = None;
     }
+    fn resolve_b_raw(&mut self, key: ReqKey, out: OutB) -> Option<Result<Outcome, String>> {
+        let Some(Held::B(r)) = self.shelf.reqs.get_mut(&key) else { return None };
+        let core = self.core.as_ref()?;
+        let res = crate::runner::catch(|| core.resolve(r, out));
+        Some(match res {
+            Ok(Ok(effs)) => {
+                self.shelf.absorb(effs, &mut self.pending);
+                Ok(Outcome::Accepted)
+            }
+            Ok(Err(_)) => Ok(Outcome::Rejected),
+            Err((loc, msg)) => {
+                if is_debug_assert_rejection(&loc, &msg) {
+                    Ok(Outcome::Rejected)
+                } else {
+                    Err(format!("panic:{loc}:{msg}"))
+                }
+            }
+        })
+    }
 }
 
 // ------------------------------------------------------------------------------------------------
@@ -555,6 +578,8 @@ where
     pub errors: Vec<String>,
     /// one-shots already answered: key -> (id, op), kept for deliberate duplicate responses
     pub consumed: BTreeMap<ReqKey, (u32, OpName)>,
+    /// two outstanding requests with the same (site, arg): the program is outside the generator's discipline
+    pub dup_keys: Vec<ReqKey>,
 }
 
 impl<A: SimApp> BridgeHost<A>
@@ -581,6 +606,7 @@ where
             seen_ids: Default::default(),
             errors: vec![],
             consumed: BTreeMap::new(),
+            dup_keys: vec![],
         }
     }
 
@@ -601,7 +627,9 @@ where
                 if let Some((k, _)) = self.ids.iter().find(|(_, (i, _))| *i == id) {
                     self.errors.push(format!("id {id} handed out for {:?} while still held for {k:?}", (d.site, d.arg)));
                 }
-                self.ids.insert((d.site, d.arg), (id, d.op));
+                if self.ids.insert((d.site, d.arg), (id, d.op)).is_some() {
+                    self.dup_keys.push((d.site, d.arg));
+                }
             }
             self.pending.push(d);
         }
